@@ -560,7 +560,7 @@ static int run_history(struct tut* t) {
         h_first = 0;
         if (h_restore == 2) restore_world();
         else if (h_restore == 1) { restore_type(TI_TYPE); if (t->ti > 0) restore_type(t->ti); }
-        if (!is_rt) { struct cfg c0; get_cfg(t->T, &c0); ct_intern(t->ti, &c0); }
+        if (!is_rt) { get_cfg(t->T, &cur_cfg); cur_cfg_id = ct_intern(t->ti, &cur_cfg); cur_cfg_valid = 1; }
       }
       while (h_pos < HN) {
         prepare(t, &H[h_pos]);
@@ -770,6 +770,7 @@ static void mode_cast(void) {
         volatile var r = NULL;
         var e = VF_CATCH(r = cast(obj, target));
         vf.executions++; vf.evaluations++; vf.transitions++;
+        { static char seen[2][3]; int kd = e == NULL ? 0 : e == ValueError ? 1 : 2; if (!seen[target == own][kd]) { seen[target == own][kd] = 1; vf.outcomes++; } }
         char l[160];
         const char* oth = (own == Terminal || target == Terminal) ? "other-type:Terminal" : "other-type";
         if (target == own) {
